@@ -485,6 +485,18 @@ def build_objects(op, extra_inputs):
             kw["inflow"] = inflow
         s = cls(**kw)
         verify("constructor")
+        # the arrays handed in had their own (independent) dimension sets before; they still do afterwards:
+        # editing the caller's DimensionSet or the stock's in place does not reach them
+        z = Dimension(name="Zeta", letter="z", items=["z1"])
+        for owner in (dims, s.dims):
+            owner.append(z, inplace=True)
+            leaked = [k for k, v in arrays.items() if "z" in v.dims.letters]
+            owner.drop("z", inplace=True)
+            for k in leaked:
+                if "z" in arrays[k].dims.letters:
+                    arrays[k].dims.drop("z", inplace=True)
+            if leaked:
+                raise AssertionError(f"INPUT-CHANGED: after building the stock, array(s) {leaked} share their dimension set with {'the DimensionSet handed in' if owner is dims else 'the stock'} (an in-place edit there reaches them)")
         return None
     # system + exports
     procs = flodym.make_processes(["sysenv", "use"])
